@@ -471,6 +471,27 @@ func runC15(tier string, seed uint64, out *Out) {
 			}
 		}
 	}
+	// extremely compressible payloads (zero-filled values, padding: snappy reaches 20:1 and more),
+	// alone and as the last block behind an incompressible one
+	{
+		cd := codecs[0]
+		chunk := int(cd.codec.ChunkLen())
+		for _, n := range []int{1000, 100000, chunk, chunk + 1, 3*chunk + 17} {
+			z := make([]byte, n)
+			emitComp(cd, [][]byte{z})
+			var zp [][]byte // the zero block in chunk-sized pieces
+			for rest := z; len(rest) > 0; {
+				l := chunk
+				if l > len(rest) {
+					l = len(rest)
+				}
+				zp = append(zp, rest[:l])
+				rest = rest[l:]
+			}
+			s, _ := hadoopEncode(cd, [][][]byte{{c15payload(rng, 500, false)}, zp})
+			emitDec(cd, s)
+		}
+	}
 	// small sizes exhaustively for the mock codec: every size 0..35, every 2-split
 	mock := codecs[1]
 	for n := 0; n <= 35; n++ {
